@@ -209,7 +209,7 @@ func (x *runner) exec(w *world, endpoint string, body []byte, info caseInfo) {
 	if endpoint == "external" {
 		res = serveExternal(w, body)
 	} else {
-		res = servePost(w.ts, body)
+		res = servePost(w.ts, body, endpoint == "http-chunked")
 	}
 	x.execs++
 	x.r.Eval(1)
@@ -374,6 +374,10 @@ func (x *runner) runTree(u unit) {
 		e := &enc{c: c, known: w.known, thorough: u.bound >= 2}
 		body := e.packet(u.plan)
 		x.exec(w, endpoint, body, caseInfo{Shape: u.plan.Shape.Name, Relayed: u.plan.Relayed != 0, Deviations: e.devs, Choices: c.Choices()})
+		if endpoint == "http" && len(e.devs) == 0 {
+			// the well-formed package of this shape also arrives without an announced length
+			x.exec(w, "http-chunked", body, caseInfo{Shape: u.plan.Shape.Name, Relayed: u.plan.Relayed != 0, Deviations: []string{"no Content-Length (chunked)"}, Choices: c.Choices()})
+		}
 	})
 	if t.Err != nil {
 		fmt.Fprintln(os.Stderr, harnessErrorMark, u.name(), t.Err)
@@ -392,6 +396,7 @@ func (x *runner) runRaw(u unit) {
 	w := x.world(u.st)
 	send := func(what string, b []byte) {
 		x.exec(w, "http", b, caseInfo{Shape: "raw", Deviations: []string{what}})
+		x.exec(w, "http-chunked", b, caseInfo{Shape: "raw", Deviations: []string{what}})
 		if u.st == S0 || u.st == S2 || u.st == S6 {
 			x.exec(w, "external", b, caseInfo{Shape: "raw", Deviations: []string{what}})
 		}
